@@ -283,3 +283,913 @@ Proof.
            destruct E as (g' & Hg' & E). rewrite E. eauto.
       * destruct E as (g' & Hg' & E). rewrite E. eauto.
 Qed.
+
+(* ------------------------------------------------------------------ numbers *)
+Lemma span_spec p l : span p l = S.while_ p l.
+Proof. induction l as [|c r IH]; [reflexivity|]. simpl. rewrite IH. reflexivity. Qed.
+
+Lemma while_all p l a b : S.while_ p l = (a, b) -> Forall (fun c => p c = true) a /\ l = a ++ b /\
+  match b with c :: _ => p c = false | [] => True end.
+Proof.
+  revert a b; induction l as [|c r IH]; intros a b H; simpl in H.
+  - inversion H; subst. repeat split; constructor.
+  - destruct (p c) eqn:Ec.
+    + destruct (S.while_ p r) as [a' b'] eqn:E. inversion H; subst.
+      destruct (IH _ _ eq_refl) as (F & -> & Hb). split; [constructor; assumption|]. split; [reflexivity|assumption].
+    + inversion H; subst. split; [constructor|]. split; [reflexivity|exact Ec].
+Qed.
+
+Lemma while_head_true p c r : p c = true ->
+  S.while_ p (c :: r) = (c :: fst (S.while_ p r), snd (S.while_ p r)).
+Proof. intros H. simpl. rewrite H. destruct (S.while_ p r); reflexivity. Qed.
+
+Lemma while_head_false p c r : p c = false -> S.while_ p (c :: r) = ([], c :: r).
+Proof. intros H. simpl. rewrite H. reflexivity. Qed.
+
+(* sign splitting, common to both sides *)
+Definition split_sign (l : list N) : list N * list N :=
+  match l with
+  | c :: r => if (c =? 43) || (c =? 45) then ([c], r) else ([], l)
+  | [] => ([], [])
+  end.
+
+Lemma digits_value_spec d : digits_value d = S.digits_val d.
+Proof.
+  unfold digits_value, S.digits_val. generalize 0. induction d as [|c d IH]; intros acc; [reflexivity|].
+  simpl. rewrite IH. f_equal. lia.
+Qed.
+
+(* the exponent part *)
+Definition model_exp (r4 : list N) : option (list N * list N) :=
+  match r4 with
+  | e :: r5 =>
+      if (e =? 101) || (e =? 69) then
+        let '(es, r6) := match r5 with
+                         | c :: r => if (c =? 43) || (c =? 45) then ([c], r) else ([], r5)
+                         | [] => ([], [])
+                         end in
+        let '(d3, r7) := span is_digit r6 in
+        match d3 with [] => None | _ :: _ => Some (e :: es ++ d3, r7) end
+      else None
+  | [] => None
+  end.
+
+Definition spec_exp (r2 : list N) : list N * list N :=
+  match r2 with
+  | e :: r =>
+      if (e =? 69) || (e =? 101) then
+        match r with
+        | s :: d :: r' =>
+            if ((s =? 43) || (s =? 45)) && S.digit d then
+              let '(ds, r'') := S.while_ S.digit (d :: r') in (e :: s :: ds, r'')
+            else if S.digit s then let '(ds, r'') := S.while_ S.digit r in (e :: ds, r'')
+            else ([], r2)
+        | [d] => if S.digit d then ([e; d], []) else ([], r2)
+        | [] => ([], r2)
+        end
+      else ([], r2)
+  | [] => ([], r2)
+  end.
+
+Lemma exp_spec r4 :
+  match model_exp r4 with
+  | Some (x, r7) => spec_exp r4 = (x, r7) /\ x <> [] /\ (exists e t, x = e :: t /\ is_digit e = false)
+  | None => spec_exp r4 = ([], r4)
+  end.
+Proof.
+  unfold model_exp, spec_exp. destruct r4 as [|e r5]; [reflexivity|].
+  replace ((e =? 69) || (e =? 101)) with ((e =? 101) || (e =? 69)) by lia.
+  destruct ((e =? 101) || (e =? 69)) eqn:Ee; [|reflexivity].
+  assert (Hde : is_digit e = false) by (unfold is_digit; lia).
+  destruct r5 as [|s r].
+  - reflexivity.
+  - destruct ((s =? 43) || (s =? 45)) eqn:Es.
+    + assert (Hds : S.digit s = false) by (unfold S.digit; lia).
+      rewrite span_spec; change (S.while_ is_digit) with (S.while_ S.digit). destruct r as [|d r'].
+      * simpl. rewrite Hds. reflexivity.
+      * simpl andb. destruct (S.digit d) eqn:Ed.
+        -- rewrite (while_head_true _ _ _ Ed). destruct (S.while_ S.digit r') as [a b]. simpl.
+           repeat split; [discriminate|eauto].
+        -- rewrite (while_head_false _ _ _ Ed). rewrite Hds. reflexivity.
+    + rewrite span_spec; change (S.while_ is_digit) with (S.while_ S.digit). destruct (S.digit s) eqn:Ed.
+      * rewrite (while_head_true _ _ _ Ed).
+        destruct r as [|d r'].
+        -- simpl. repeat split; [discriminate|eauto].
+        -- simpl andb. destruct (S.while_ S.digit (d :: r')) as [a b]. simpl.
+           repeat split; [discriminate|eauto].
+      * rewrite (while_head_false _ _ _ Ed).
+        destruct r as [|d r']; [reflexivity|]. simpl andb. reflexivity.
+Qed.
+
+Definition model_mant (d1 r1 : list N) : option (list N * list N) :=
+  let plain := match d1 with [] => None | _ :: _ => Some (d1, r1) end in
+  match r1 with
+  | c :: r2 =>
+      if c =? 46 then
+        let '(d2, r3) := span is_digit r2 in
+        match d2 with [] => plain | _ :: _ => Some (d1 ++ 46 :: d2, r3) end
+      else plain
+  | [] => plain
+  end.
+
+Definition spec_frac (r1 : list N) : list N * list N :=
+  match r1 with
+  | p :: d :: r =>
+      if (p =? 46) && S.digit d then let '(ds, r') := S.while_ S.digit (d :: r) in (46 :: ds, r') else ([], r1)
+  | _ => ([], r1)
+  end.
+
+Lemma scan_number_eq rest :
+  scan_number rest =
+  let '(sign, r0) := split_sign rest in
+  let '(d1, r1) := span is_digit r0 in
+  match model_mant d1 r1 with
+  | None => None
+  | Some (m, r4) =>
+      match model_exp r4 with
+      | Some (x, r7) => Some (sign ++ m ++ x, r7)
+      | None => Some (sign ++ m, r4)
+      end
+  end.
+Proof. reflexivity. Qed.
+
+Lemma consume_number_eq rest :
+  S.consume_number rest =
+  let '(sign, r0) := split_sign rest in
+  let '(ip, r1) := S.while_ S.digit r0 in
+  let '(frac, r2) := spec_frac r1 in
+  let '(expo, r3) := spec_exp r2 in
+  (sign ++ ip ++ frac ++ expo, match frac, expo with [], [] => true | _, _ => false end, r3).
+Proof. reflexivity. Qed.
+
+Lemma mant_spec d1 r1 : (match r1 with c :: _ => S.digit c = false | [] => True end) ->
+  match model_mant d1 r1 with
+  | Some (m, r4) => m = d1 ++ fst (spec_frac r1) /\ r4 = snd (spec_frac r1) /\ m <> []
+  | None => d1 = [] /\ spec_frac r1 = ([], r1)
+  end.
+Proof.
+  intros Hh. unfold model_mant, spec_frac.
+  assert (Hp : match (match d1 with [] => None | _ :: _ => Some (d1, r1) end) with
+               | Some (m, r4) => m = d1 ++ [] /\ r4 = r1 /\ m <> []
+               | None => d1 = [] /\ True end).
+  { destruct d1; [auto|]. rewrite app_nil_r. repeat split. discriminate. }
+  destruct r1 as [|c r2].
+  - destruct d1; [auto|]. rewrite app_nil_r. repeat split. discriminate.
+  - destruct (c =? 46) eqn:Ec.
+    + rewrite span_spec. change (S.while_ is_digit) with (S.while_ S.digit).
+      destruct r2 as [|d r].
+      * simpl. destruct d1; [auto|]. rewrite app_nil_r. repeat split. discriminate.
+      * simpl andb. destruct (S.digit d) eqn:Ed.
+        -- rewrite (while_head_true _ _ _ Ed). destruct (S.while_ S.digit r) as [a b]. simpl.
+           apply N.eqb_eq in Ec. subst c. repeat split. destruct d1; discriminate.
+        -- rewrite (while_head_false _ _ _ Ed). simpl.
+           destruct d1; [auto|]. rewrite app_nil_r. repeat split. discriminate.
+    + simpl andb. destruct r2 as [|d r]; (destruct d1; [auto|]; rewrite app_nil_r; repeat split; discriminate).
+Qed.
+
+Lemma split_sign_app rest : rest = fst (split_sign rest) ++ snd (split_sign rest).
+Proof. unfold split_sign. destruct rest as [|c r]; [reflexivity|]. destruct ((c =? 43) || (c =? 45)); reflexivity. Qed.
+
+Lemma starts_number_spec rest :
+  S.starts_number rest =
+  let '(sign, r0) := split_sign rest in
+  let '(d1, r1) := S.while_ S.digit r0 in
+  match d1, fst (spec_frac r1) with
+  | [], [] => false
+  | _, _ => true
+  end.
+Proof.
+  unfold S.starts_number, split_sign. destruct rest as [|c r]; [reflexivity|].
+  destruct ((c =? 43) || (c =? 45)) eqn:Es.
+  - destruct r as [|d r']; [reflexivity|].
+    destruct (S.digit d) eqn:Ed.
+    + rewrite (while_head_true _ _ _ Ed). simpl. reflexivity.
+    + rewrite (while_head_false _ _ _ Ed). simpl. unfold spec_frac.
+      destruct r' as [|e r'']; [simpl; lia|].
+      destruct (d =? 46) eqn:E46; simpl andb; [|reflexivity].
+      destruct (S.digit e) eqn:Ee; [|reflexivity].
+      destruct (S.while_ S.digit r''). reflexivity.
+  - destruct (c =? 46) eqn:E46.
+    + assert (Ed : S.digit c = false) by (unfold S.digit; lia).
+      rewrite (while_head_false _ _ _ Ed). unfold spec_frac. rewrite E46.
+      destruct r as [|d r']; [reflexivity|]. simpl andb.
+      destruct (S.digit d); [|reflexivity]. destruct (S.while_ S.digit (d :: r')). reflexivity.
+    + destruct (S.digit c) eqn:Ed.
+      * rewrite (while_head_true _ _ _ Ed). reflexivity.
+      * rewrite (while_head_false _ _ _ Ed). unfold spec_frac. rewrite E46.
+        destruct r; reflexivity.
+Qed.
+
+(* the integer flag: strconv.ParseInt succeeds  <->  type "integer" and the value fits int64 *)
+Definition sign_ok (sign : list N) : Prop := sign = [] \/ sign = [43] \/ sign = [45].
+
+Lemma split_sign_ok rest sign r0 : split_sign rest = (sign, r0) ->
+  sign_ok sign /\ (sign = [] -> match r0 with c :: _ => (c =? 45) || (c =? 43) = false | [] => True end).
+Proof.
+  unfold split_sign, sign_ok. destruct rest as [|c r].
+  - intros H; inversion H; auto.
+  - destruct ((c =? 43) || (c =? 45)) eqn:E; intros H; inversion H; subst.
+    + split; [|discriminate]. destruct (c =? 43) eqn:E1.
+      * apply N.eqb_eq in E1; subst; auto.
+      * right; right. f_equal. lia.
+    + split; [auto|]. intros _. lia.
+Qed.
+
+Lemma repr_is_int_nondigit sign body :
+  sign_ok sign ->
+  (sign = [] -> match body with c :: _ => (c =? 45) || (c =? 43) = false | [] => True end) ->
+  forallb is_digit body = false ->
+  repr_is_int (sign ++ body) = false.
+Proof.
+  intros Hs Hh Hf. unfold repr_is_int, repr_int.
+  destruct Hs as [->|[->| ->]]; simpl app.
+  - specialize (Hh eq_refl). destruct body as [|c b]; [reflexivity|].
+    destruct (c =? 45) eqn:E1; [simpl in Hh; lia|]. destruct (c =? 43) eqn:E2; [simpl in Hh; lia|].
+    rewrite Hf. reflexivity.
+  - cbv match. change (N.eqb 43 45) with false. change (N.eqb 43 43) with true. cbv match.
+    destruct body; [reflexivity|]. rewrite Hf. reflexivity.
+  - cbv match. change (N.eqb 45 45) with true. cbv match.
+    destruct body; [reflexivity|]. rewrite Hf. reflexivity.
+Qed.
+
+Lemma repr_is_int_digits sign d :
+  sign_ok sign -> d <> [] -> forallb is_digit d = true ->
+  repr_is_int (sign ++ d) = S.fits_int64 (sign ++ d).
+Proof.
+  intros Hs Hne Hf. unfold repr_is_int, repr_int, S.fits_int64.
+  destruct Hs as [->|[->| ->]]; simpl app.
+  - destruct d as [|c b]; [congruence|].
+    assert (Hc : is_digit c = true) by (simpl in Hf; lia).
+    replace (c =? 45) with false by (unfold is_digit in Hc; lia).
+    replace (c =? 43) with false by (unfold is_digit in Hc; lia).
+    rewrite Hf. rewrite digits_value_spec.
+    set (v := S.digits_val (c :: b)).
+    destruct (v <=? 9223372036854775807) eqn:E.
+    + replace ((-9223372036854775808 <=? Z.of_N v)%Z && (Z.of_N v <=? 9223372036854775807)%Z) with true by lia.
+      reflexivity.
+    + replace ((-9223372036854775808 <=? Z.of_N v)%Z && (Z.of_N v <=? 9223372036854775807)%Z) with false by lia.
+      reflexivity.
+  - cbv match. change (N.eqb 43 45) with false. change (N.eqb 43 43) with true. cbv match.
+    destruct d as [|c b]; [congruence|]. rewrite Hf. rewrite digits_value_spec.
+    set (v := S.digits_val (c :: b)).
+    destruct (v <=? 9223372036854775807) eqn:E.
+    + replace ((-9223372036854775808 <=? Z.of_N v)%Z && (Z.of_N v <=? 9223372036854775807)%Z) with true by lia.
+      reflexivity.
+    + replace ((-9223372036854775808 <=? Z.of_N v)%Z && (Z.of_N v <=? 9223372036854775807)%Z) with false by lia.
+      reflexivity.
+  - cbv match. change (N.eqb 45 45) with true. cbv match.
+    destruct d as [|c b]; [congruence|]. rewrite Hf. rewrite digits_value_spec.
+    set (v := S.digits_val (c :: b)).
+    destruct (v <=? 9223372036854775808) eqn:E.
+    + replace ((-9223372036854775808 <=? - Z.of_N v)%Z && (- Z.of_N v <=? 9223372036854775807)%Z) with true by lia.
+      reflexivity.
+    + replace ((-9223372036854775808 <=? - Z.of_N v)%Z && (- Z.of_N v <=? 9223372036854775807)%Z) with false by lia.
+      reflexivity.
+Qed.
+
+Lemma forallb_app_false (p : N -> bool) a e b : p e = false -> forallb p (a ++ e :: b) = false.
+Proof. intros H. rewrite forallb_app. simpl. rewrite H. apply andb_false_r. Qed.
+
+Lemma Forall_forallb (p : N -> bool) l : Forall (fun c => p c = true) l -> forallb p l = true.
+Proof. induction 1; simpl; [reflexivity|]. rewrite H, IHForall. reflexivity. Qed.
+
+Lemma scan_number_spec rest :
+  match scan_number rest with
+  | Some (repr, r1) =>
+      S.starts_number rest = true /\
+      exists integer, S.consume_number rest = (repr, integer, r1) /\
+                      repr_is_int repr = S.nflag repr integer
+  | None => S.starts_number rest = false
+  end.
+Proof.
+  rewrite scan_number_eq, consume_number_eq, starts_number_spec.
+  destruct (split_sign rest) as [sign r0] eqn:Ess.
+  destruct (split_sign_ok _ _ _ Ess) as [Hso Hsh].
+  rewrite span_spec. change (S.while_ is_digit) with (S.while_ S.digit).
+  destruct (S.while_ S.digit r0) as [d1 r1] eqn:Ew.
+  destruct (while_all _ _ _ _ Ew) as (Hd1 & Hr0 & Hh).
+  pose proof (mant_spec d1 r1 Hh) as Hm.
+  destruct (model_mant d1 r1) as [[m r4]|].
+  - destruct Hm as (Hm & Hr4 & Hne).
+    destruct (spec_frac r1) as [frac r2] eqn:Ef. cbn [fst snd] in *. subst r4.
+    assert (Hfrac : frac = [] \/ exists t, frac = 46 :: t).
+    { unfold spec_frac in Ef. destruct r1 as [|p0 [|d0 r]]; try (inversion Ef; auto).
+      destruct ((p0 =? 46) && S.digit d0).
+      - destruct (S.while_ S.digit (d0 :: r)). inversion Ef; eauto.
+      - inversion Ef; auto. }
+    assert (Hsn : match d1, frac with [], [] => false | _, _ => true end = true).
+    { destruct d1; [|reflexivity]. destruct frac; [|reflexivity]. simpl in Hm. congruence. }
+    (* the head of (d1 ++ frac ++ ...) is not a sign when there is no sign *)
+    assert (Hbody : forall y, sign = [] ->
+              match (d1 ++ frac) ++ y with c :: _ => (c =? 45) || (c =? 43) = false | [] => True end).
+    { intros y Hs0. destruct d1 as [|c d1'].
+      - destruct Hfrac as [->|[t ->]]; [simpl in Hm; congruence|]. reflexivity.
+      - inversion Hd1; subst. simpl. unfold S.digit in *. lia. }
+    pose proof (exp_spec r2) as He.
+    destruct (model_exp r2) as [[x r7]|].
+    + destruct He as (He & Hxne & (e & t & Hx & Hde)). rewrite He.
+      split; [exact Hsn|]. eexists; split.
+      * subst m. rewrite <- !app_assoc. reflexivity.
+      * assert (Hint : match frac, x with [], [] => true | _, _ => false end = false).
+        { destruct frac; [|reflexivity]. destruct x; [congruence|reflexivity]. }
+        rewrite Hint. unfold S.nflag. simpl andb.
+        subst m x. apply repr_is_int_nondigit; [exact Hso|apply Hbody|].
+        apply forallb_app_false. exact Hde.
+    + rewrite He. split; [exact Hsn|]. eexists; split.
+      * subst m. rewrite app_nil_r. reflexivity.
+      * unfold S.nflag. destruct Hfrac as [->|[t ->]].
+        -- simpl andb. subst m. rewrite app_nil_r in *.
+           apply repr_is_int_digits; [exact Hso|exact Hne|].
+           apply Forall_forallb. exact Hd1.
+        -- simpl andb. subst m.
+           apply repr_is_int_nondigit; [exact Hso| |].
+           ++ intros Hs0. specialize (Hbody [] Hs0). rewrite app_nil_r in Hbody. exact Hbody.
+           ++ apply forallb_app_false. reflexivity.
+  - destruct Hm as [-> Hf]. rewrite Hf. reflexivity.
+Qed.
+
+(* ------------------------------------------------------------------ unicode-range *)
+Lemma take_while_n_spec p q n l : (forall c, p c = q c) -> take_while_n p n l = S.while_upto q n l.
+Proof.
+  intros Hpq. revert l; induction n as [|n IH]; intros l; [reflexivity|].
+  destruct l as [|c r]; [reflexivity|]. simpl. rewrite Hpq, IH. reflexivity.
+Qed.
+
+Lemma while_upto_all p n l a b : S.while_upto p n l = (a, b) -> Forall (fun c => p c = true) a.
+Proof.
+  revert l a b; induction n as [|n IH]; intros l a b H; simpl in H.
+  - inversion H; constructor.
+  - destruct l as [|c r]; [inversion H; constructor|].
+    destruct (p c) eqn:Ec.
+    + destruct (S.while_upto p n r) as [a' b'] eqn:E. inversion H; subst. constructor; [exact Ec|eapply IH; eassumption].
+    + inversion H; constructor.
+Qed.
+
+Lemma repeat_map (x : N) (l : list N) : repeat x (length l) = map (fun _ => x) l.
+Proof. induction l; simpl; congruence. Qed.
+
+Lemma Forall_hex_app h x (l : list N) : Forall (fun c => is_hex c = true) h -> is_hex x = true ->
+  Forall (fun c => is_hex c = true) (h ++ map (fun _ => x) l).
+Proof. intros Hh Hx. apply Forall_app; split; [exact Hh|]. induction l; constructor; auto. Qed.
+
+Lemma while_upto_head p n c r : p c = true ->
+  exists a b, S.while_upto p (S n) (c :: r) = (c :: a, b).
+Proof. intros H. simpl. rewrite H. destruct (S.while_upto p n r); eauto. Qed.
+
+Lemma while_upto_head_false p n c r : p c = false -> S.while_upto p (S n) (c :: r) = ([], c :: r).
+Proof. intros H. simpl. rewrite H. reflexivity. Qed.
+
+Lemma consume_unicode_range_spec c2 r : is_hex c2 || (c2 =? 63) = true ->
+  exists s e r', consume_unicode_range (c2 :: r) = (Some (s, e), r') /\
+                 S.consume_unicode_range (c2 :: r) = (S.SUnicodeRange s e, r').
+Proof.
+  intros Hc2. unfold consume_unicode_range, S.consume_unicode_range.
+  rewrite (take_while_n_spec is_hex S.hex_digit) by apply is_hex_spec.
+  destruct (S.while_upto S.hex_digit 6 (c2 :: r)) as [h r1] eqn:E1.
+  assert (Hh : Forall (fun c => is_hex c = true) h).
+  { apply while_upto_all in E1. eapply Forall_impl; [|exact E1]. intros a Ha. now rewrite is_hex_spec. }
+  rewrite (take_while_n_spec (fun c => c =? 63) (fun c => c =? 63)) by reflexivity.
+  destruct (S.while_upto (fun c => c =? 63) (6 - length h) r1) as [q r2] eqn:E2.
+  destruct q as [|q0 q].
+  - (* no question mark: the first code point is a hex digit *)
+    assert (Hne : h <> []).
+    { destruct (is_hex c2) eqn:Eh.
+      - destruct (while_upto_head S.hex_digit 5 c2 r) as (a & b & E); [now rewrite <- is_hex_spec|].
+        rewrite E in E1. inversion E1. discriminate.
+      - (* c2 = '?' : then h = [] and q is not empty *)
+        exfalso. rewrite (while_upto_head_false S.hex_digit 5 c2 r) in E1 by (now rewrite <- is_hex_spec).
+        inversion E1; subst. change (6 - length (@nil N))%nat with 6%nat in E2.
+        destruct (while_upto_head (fun c => c =? 63) 5 c2 r) as (a & b & E); [lia|].
+        rewrite E in E2. discriminate. }
+    cbn [length Nat.eqb negb].
+    assert (Hph : parse_hex h = Some (hex_value h)) by (destruct h; [congruence|reflexivity]).
+    destruct r2 as [|c0 [|c1 r'']].
+    + rewrite Hph. rewrite hex_value_spec by assumption. eauto.
+    + rewrite Hph. rewrite hex_value_spec by assumption. eauto.
+    + rewrite <- is_hex_spec. destruct ((c0 =? 45) && is_hex c1) eqn:Ec.
+      * rewrite (take_while_n_spec is_hex S.hex_digit) by apply is_hex_spec.
+        destruct (S.while_upto S.hex_digit 6 (c1 :: r'')) as [h2 r4] eqn:E4.
+        assert (Hh2 : Forall (fun c => is_hex c = true) h2).
+        { apply while_upto_all in E4. eapply Forall_impl; [|exact E4]. intros a Ha. now rewrite is_hex_spec. }
+        assert (Hne2 : h2 <> []).
+        { destruct (while_upto_head S.hex_digit 5 c1 r'') as (a & b & E); [rewrite <- is_hex_spec; lia|].
+          rewrite E in E4. inversion E4. discriminate. }
+        rewrite Hph. assert (Hph2 : parse_hex h2 = Some (hex_value h2)) by (destruct h2; [congruence|reflexivity]).
+        rewrite Hph2. rewrite !hex_value_spec by assumption. eauto.
+      * rewrite Hph. rewrite hex_value_spec by assumption. eauto.
+  - cbn [length Nat.eqb negb].
+    rewrite !(repeat_map _ (q0 :: q)).
+    assert (H48 : Forall (fun c => is_hex c = true) (h ++ map (fun _ => 48) (q0 :: q))) by (apply Forall_hex_app; auto).
+    assert (H70 : Forall (fun c => is_hex c = true) (h ++ map (fun _ => 70) (q0 :: q))) by (apply Forall_hex_app; auto).
+    assert (P1 : parse_hex (h ++ map (fun _ => 48) (q0 :: q)) = Some (hex_value (h ++ map (fun _ => 48) (q0 :: q)))).
+    { destruct h; reflexivity. }
+    assert (P2 : parse_hex (h ++ map (fun _ => 70) (q0 :: q)) = Some (hex_value (h ++ map (fun _ => 70) (q0 :: q)))).
+    { destruct h; reflexivity. }
+    rewrite P1, P2. rewrite !hex_value_spec by assumption. eauto.
+Qed.
+
+(* ------------------------------------------------------------------ would start an identifier *)
+Lemma is_ident_start_spec c r : is_ident_start true (c :: r) = Ok (S.starts_ident (c :: r)).
+Proof.
+  unfold is_ident_start, is_name_start, S.starts_ident. rewrite is_name_start_cp_spec.
+  destruct (S.ident_start c) eqn:Eis.
+  - replace (c =? 45) with false by (unfold S.ident_start, S.letter, S.non_ascii in Eis; lia).
+    replace (c =? 92) with false by (unfold S.ident_start, S.letter, S.non_ascii in Eis; lia).
+    reflexivity.
+  - unfold index. simpl. destruct (c =? 45) eqn:E45.
+    + f_equal. rewrite valid_escape_at_spec. destruct r as [|d r']; [reflexivity|].
+      rewrite is_name_start_cp_spec. reflexivity.
+    + destruct (c =? 92) eqn:E92; [|reflexivity].
+      f_equal. apply N.eqb_eq in E92; subst c. unfold s_bsnl.
+      change (has_prefix [92; 10] (92 :: r)) with (N.eqb 92 92 && has_prefix [10] r).
+      change (N.eqb 92 92) with true. rewrite has_prefix_1. unfold S.newline.
+      destruct r as [|d r']; [reflexivity|]. simpl. rewrite N.eqb_sym. reflexivity.
+Qed.
+
+Lemma is_ident_start_guard_spec r :
+  match r with [] => Ok false | _ :: _ => is_ident_start true r end = Ok (S.starts_ident r).
+Proof. destruct r; [reflexivity|apply is_ident_start_spec]. Qed.
+
+(* ------------------------------------------------------------------ url( look-ahead *)
+Definition head_ws (l : list N) : bool := match l with c :: _ => S.whitespace c | [] => false end.
+Definition ws_equiv (a b : list N) : Prop := S.skip_ws a = S.skip_ws b /\ head_ws a = head_ws b.
+
+Lemma ws_equiv_refl a : ws_equiv a a.
+Proof. split; reflexivity. Qed.
+
+Lemma skip_ws_cons c r : S.skip_ws (c :: r) = if S.whitespace c then S.skip_ws r else c :: r.
+Proof. unfold S.skip_ws. simpl. destruct (S.whitespace c); [|reflexivity]. destruct (S.while_ S.whitespace r); reflexivity. Qed.
+
+Lemma skip_ws_nows l : head_ws l = false -> S.skip_ws l = l.
+Proof. destruct l as [|c r]; [reflexivity|]. simpl. intros H. rewrite skip_ws_cons, H. reflexivity. Qed.
+
+Lemma ws_equiv_nows a b : ws_equiv a b -> head_ws a = false -> a = b.
+Proof. intros [H1 H2] Ha. rewrite skip_ws_nows in H1 by assumption. rewrite skip_ws_nows in H1 by congruence. exact H1. Qed.
+
+Lemma dwbo_cons2 a b r : S.drop_ws_but_one (a :: b :: r) =
+  if S.whitespace a && S.whitespace b then S.drop_ws_but_one (b :: r) else a :: b :: r.
+Proof. reflexivity. Qed.
+
+Lemma dwbo_props n : forall r, (length r <= n)%nat ->
+  ws_equiv r (S.drop_ws_but_one r) /\
+  (match S.drop_ws_but_one r with
+   | a :: b :: _ => S.quote a || (S.whitespace a && S.quote b)
+   | [a] => S.quote a
+   | [] => false
+   end = match S.skip_ws r with c :: _ => S.quote c | [] => false end) /\
+  suffix (S.drop_ws_but_one r) r.
+Proof.
+  induction n as [|n IH]; intros r Hl.
+  - destruct r; [|simpl in Hl; lia]. repeat split; apply suffix_refl.
+  - destruct r as [|a [|b r']].
+    + repeat split; apply suffix_refl.
+    + split; [apply ws_equiv_refl|]. split; [|apply suffix_refl]. simpl. rewrite skip_ws_cons.
+      destruct (S.whitespace a) eqn:Ew; [|reflexivity].
+      change (S.skip_ws []) with (@nil N). cbv match.
+      unfold S.whitespace, S.newline, S.quote in *. lia.
+    + rewrite dwbo_cons2. destruct (S.whitespace a && S.whitespace b) eqn:Ew.
+      * destruct (IH (b :: r')) as ((Hs & Hh) & Hq & Sf); [simpl in *; lia|].
+        assert (Ea : S.whitespace a = true) by lia. assert (Eb : S.whitespace b = true) by lia.
+        split; [split|split].
+        -- rewrite skip_ws_cons, Ea. exact Hs.
+        -- simpl head_ws at 1. rewrite Ea. rewrite <- Hh. simpl. rewrite Eb. reflexivity.
+        -- rewrite Hq. rewrite (skip_ws_cons a), Ea. reflexivity.
+        -- apply suffix_cons. exact Sf.
+      * split; [apply ws_equiv_refl|]. split; [|apply suffix_refl].
+        rewrite skip_ws_cons. destruct (S.whitespace a) eqn:Ea.
+        -- assert (Eb : S.whitespace b = false) by lia. rewrite skip_ws_cons, Eb.
+           replace (S.quote a) with false by (unfold S.whitespace, S.newline, S.quote in *; lia). reflexivity.
+        -- simpl. rewrite orb_false_r. reflexivity.
+Qed.
+
+Lemma url_is_unquoted_spec r : url_is_unquoted r =
+  negb (match S.skip_ws r with c :: _ => S.quote c | [] => false end).
+Proof.
+  unfold url_is_unquoted. rewrite skip_spaces_spec. destruct (S.skip_ws r) as [|c r']; [reflexivity|].
+  unfold S.quote. reflexivity.
+Qed.
+
+Lemma is_url_name_spec v : str_eqb (ascii_lower v) s_url = S.is_url_name v.
+Proof.
+  unfold S.is_url_name, ascii_lower, s_url.
+  assert (Hl : forall c, lower_cp c = S.lower c) by reflexivity.
+  destruct v as [|a [|b [|c [|d v]]]]; simpl; rewrite ?Hl;
+    repeat (destruct (N.eqb _ _); simpl; try reflexivity); reflexivity.
+Qed.
+
+(* ------------------------------------------------------------------ one iteration against "consume a token" *)
+Definition tok_out (t : S.stoken) (rS : list N) (lx : lexed) : Prop :=
+  exists ts, lx = LTok ts rS /\ map S.erase ts = S.norm_token t.
+
+Lemma consume_url_spec f g p r2 v e r3 : scalars r2 -> (length r2 < f)%nat -> (length r2 < g)%nat ->
+  url_is_unquoted r2 = true ->
+  consume_url true f p r2 = Ok (v, e, r3) ->
+  tok_out (fst (S.consume_url g r2)) (snd (S.consume_url g r2)) (LTok (opt_list v ++ opt_list e) r3).
+Proof.
+  intros Hs Hf Hg Hu H. unfold tok_out. exists (opt_list v ++ opt_list e).
+  unfold consume_url in H. unfold S.consume_url.
+  rewrite url_is_unquoted_spec in Hu. rewrite skip_spaces_spec in H.
+  pose proof (skip_ws_length r2) as Hl.
+  assert (Hsw : scalars (S.skip_ws r2)).
+  { eapply scalars_suffix; [|exact Hs]. rewrite <- skip_spaces_spec. apply skip_spaces_suffix. }
+  (* bad-url continuation *)
+  assert (Bad : forall r g', suffix r (S.skip_ws r2) -> (length r <= g')%nat ->
+    (let* r' := bad_url_remnants true f r in Ok (@None token, Some (TParseError p errBadURL), r')) = Ok (v, e, r3) ->
+    LTok (opt_list v ++ opt_list e) r3 = LTok (opt_list v ++ opt_list e) (S.bad_url_remnants g' r) /\
+    map S.erase (opt_list v ++ opt_list e) = S.norm_token S.SBadUrl).
+  { intros r g' Sr Hg' X. destruct (bad_url_remnants true f r) as [rb| |] eqn:Eb; try discriminate.
+    simpl in X. inversion X; subst.
+    rewrite (bad_url_remnants_spec f g' r r3); [split; reflexivity| |exact Hg'|exact Eb].
+    eapply scalars_suffix; eassumption. }
+  destruct (S.skip_ws r2) as [|c r] eqn:Ew.
+  - inversion H; subst. destruct g; [lia|]. simpl. split; reflexivity.
+  - simpl in Hu. assert (Eq : (c =? 34) || (c =? 39) = false) by (unfold S.quote in Hu; lia).
+    rewrite Eq in H.
+    assert (Hlg : (length (c :: r) < g)%nat) by lia.
+    destruct (c =? 41) eqn:E41.
+    + inversion H; subst. destruct g; [lia|]. simpl. rewrite E41. simpl. split; reflexivity.
+    + destruct (url_loop true f (c :: r)) as [x| |] eqn:El; try discriminate.
+      pose proof (url_loop_suffix _ _ _ El) as Sx.
+      apply (url_loop_spec f g) in El; [|exact Hsw|exact Hlg].
+      cbn [bind] in H.
+      destruct x as [v0 r1|v0|v0 r1|r1]; simpl in El, Sx.
+      * inversion H; subst. rewrite El. simpl. split; reflexivity.
+      * inversion H; subst. rewrite El. simpl. split; reflexivity.
+      * rewrite skip_spaces_spec in H. destruct (S.skip_ws r1) as [|d r'] eqn:Ew1.
+        -- inversion H; subst. rewrite El. simpl. split; reflexivity.
+        -- destruct (d =? 41).
+           ++ inversion H; subst. rewrite El. simpl. split; reflexivity.
+           ++ destruct El as (g' & Hg' & El). rewrite El. cbn [fst snd].
+              apply Bad; [|exact Hg'|exact H].
+              eapply suffix_trans; [|exact Sx]. rewrite <- Ew1, <- skip_spaces_spec. apply skip_spaces_suffix.
+      * destruct El as (g' & Hg' & El). rewrite El. cbn [fst snd].
+        apply Bad; [exact Sx|exact Hg'|exact H].
+Qed.
+
+Definition lex_rel (skip : bool) (endc : N) (p : pos) (t : S.stoken) (rS : list N) (lx : lexed) : Prop :=
+  match t with
+  | S.SComment txt eof =>
+      let cs := if skip then [] else [TComment p txt] in
+      if eof then rS = [] /\ lx = LReturn cs [] else lx = LTok cs rS
+  | S.SLParen => lx = LOpen OParens rS
+  | S.SLBracket => lx = LOpen OSquare rS
+  | S.SLBrace => lx = LOpen OCurly rS
+  | S.SFunction n => exists rI, lx = LOpen (OFunction n) rI /\ ws_equiv rI rS /\ suffix rS rI
+  | S.SRParen => lx = if 41 =? endc then LClose rS else LTok [TParseError p 41] rS
+  | S.SRBracket => lx = if 93 =? endc then LClose rS else LTok [TParseError p 93] rS
+  | S.SRBrace => lx = if 125 =? endc then LClose rS else LTok [TParseError p 125] rS
+  | _ => tok_out t rS lx
+  end.
+
+Lemma lex_ident_like_spec skip endc f g p rest lx : scalars rest -> (length rest < f)%nat -> (length rest <= g)%nat ->
+  lex_ident_like true f p rest = Ok lx ->
+  lex_rel skip endc p (fst (S.consume_ident_like g rest)) (snd (S.consume_ident_like g rest)) lx.
+Proof.
+  intros Hs Hf Hg H. unfold lex_ident_like in H. unfold S.consume_ident_like.
+  destruct (consume_ident f rest) as [[value r1]| |] eqn:Ei; try discriminate.
+  cbn [bind] in H.
+  pose proof (consume_ident_suffix _ _ _ _ Ei) as S1.
+  rewrite (consume_ident_spec f g rest value r1 Hs Hg Ei).
+  destruct r1 as [|c1 r2].
+  - inversion H; subst. cbn [fst snd]. exists [TIdent p value]. split; reflexivity.
+  - destruct (c1 =? 40) eqn:E40.
+    + rewrite <- is_url_name_spec.
+      assert (Sr2 : suffix r2 rest) by (eapply suffix_trans; [apply suffix_tl|exact S1]).
+      pose proof (suffix_length _ _ S1) as L1. simpl in L1.
+      destruct (dwbo_props (length r2) r2 (le_n _)) as (Hwe & Hq & Sd).
+      destruct (str_eqb (ascii_lower value) s_url) eqn:Eu; cbn [andb] in H.
+      * rewrite url_is_unquoted_spec in H.
+        set (qc := match S.skip_ws r2 with c :: _ => S.quote c | [] => false end) in *.
+        assert (Hcond : forall (A : Type) (x y : A),
+           match S.drop_ws_but_one r2 with
+           | a :: b :: _ => if S.quote a || S.whitespace a && S.quote b then x else y
+           | [a] => if S.quote a then x else y
+           | [] => y
+           end = if qc then x else y).
+        { intros A x y. rewrite <- Hq. destruct (S.drop_ws_but_one r2) as [|a [|b l]]; reflexivity. }
+        rewrite Hcond. destruct qc eqn:Eqc; cbn [negb] in H.
+        -- inversion H; subst. cbn [fst snd]. exists r2. split; [reflexivity|split; [exact Hwe|exact Sd]].
+        -- destruct (consume_url true f p r2) as [[[v e] r3]| |] eqn:Ec; try discriminate.
+           cbn [bind] in H. inversion H; subst.
+           assert (Hsame : S.consume_url g (S.drop_ws_but_one r2) = S.consume_url g r2).
+           { unfold S.consume_url. destruct Hwe as [Hw _]. rewrite <- Hw. reflexivity. }
+           rewrite Hsame.
+           pose proof (consume_url_spec f g p r2 v e r3) as X.
+           assert (tok_out (fst (S.consume_url g r2)) (snd (S.consume_url g r2)) (LTok (opt_list v ++ opt_list e) r3)) as Y.
+           { apply X; [eapply scalars_suffix; eassumption|lia|lia| |exact Ec].
+             rewrite url_is_unquoted_spec. fold qc. rewrite Eqc. reflexivity. }
+           destruct (S.consume_url g r2) as [t rS] eqn:Ecu. cbn [fst snd] in *.
+           assert (Ht : t = S.SBadUrl \/ exists v0 b0, t = S.SUrl v0 b0).
+           { unfold S.consume_url in Ecu. destruct (S.url_body g (S.skip_ws r2)) as [[[v0 b0]|] r0];
+               inversion Ecu; eauto. }
+           destruct Ht as [->|(v0 & b0 & ->)]; exact Y.
+      * inversion H; subst. cbn [fst snd]. exists r2. split; [reflexivity|split; [apply ws_equiv_refl|apply suffix_refl]].
+    + inversion H; subst. cbn [fst snd]. exists [TIdent p value]. split; reflexivity.
+Qed.
+
+Lemma try_consume_number_spec f g p rest : scalars rest -> (length rest < f)%nat -> (length rest <= g)%nat ->
+  match try_consume_number true f p rest with
+  | Ok (Some (t, r')) =>
+      S.starts_number rest = true /\
+      tok_out (fst (S.consume_numeric g rest)) (snd (S.consume_numeric g rest)) (LTok [t] r')
+  | Ok None => S.starts_number rest = false
+  | _ => False
+  end.
+Proof.
+  intros Hs Hf Hg. unfold try_consume_number, S.consume_numeric.
+  pose proof (scan_number_spec rest) as Hn.
+  destruct (scan_number rest) as [[repr r1]|] eqn:Esn; [|exact Hn].
+  destruct Hn as (Hsn & integer & Hcn & Hfl). rewrite Hcn.
+  apply scan_number_psuffix in Esn.
+  assert (S1 : suffix r1 rest) by auto with sfx.
+  rewrite is_ident_start_guard_spec. cbn [bind].
+  destruct (S.starts_ident r1) eqn:Esi.
+  - destruct (consume_ident_ok f r1) as (u & r2 & E).
+    { apply psuffix_length in Esn. lia. }
+    rewrite E. cbn [bind]. split; [exact Hsn|].
+    rewrite (consume_ident_spec f g r1 u r2); [| |apply suffix_length in S1; lia|exact E].
+    + cbn [fst snd]. eexists; split; [reflexivity|]. simpl. rewrite Hfl. reflexivity.
+    + eapply scalars_suffix; eassumption.
+  - destruct r1 as [|c r2].
+    + split; [exact Hsn|]. cbn [fst snd]. eexists; split; [reflexivity|]. simpl. rewrite Hfl. reflexivity.
+    + destruct (c =? 37).
+      * split; [exact Hsn|]. cbn [fst snd]. eexists; split; [reflexivity|]. simpl. rewrite Hfl. reflexivity.
+      * split; [exact Hsn|]. cbn [fst snd]. eexists; split; [reflexivity|]. simpl. rewrite Hfl. reflexivity.
+Qed.
+
+(* comments *)
+Lemma find_comment_end_spec l :
+  match find_comment_end l with
+  | Some (txt, r') => S.comment_body l = (txt, false, r')
+  | None => S.comment_body l = (l, true, [])
+  end.
+Proof.
+  induction l as [|c r IH]; [reflexivity|].
+  cbn [find_comment_end S.comment_body].
+  assert (Hp : has_prefix [42; 47] (c :: r) = (c =? 42) && match r with d :: _ => d =? 47 | [] => false end).
+  { change (has_prefix [42; 47] (c :: r)) with ((42 =? c) && has_prefix [47] r). rewrite has_prefix_1.
+    rewrite (N.eqb_sym 42 c). destruct r as [|d r']; [reflexivity|]. rewrite (N.eqb_sym 47 d). reflexivity. }
+  rewrite Hp. destruct ((c =? 42) && _); [reflexivity|].
+  destruct (find_comment_end r) as [[txt r']|]; rewrite IH; reflexivity.
+Qed.
+
+Ltac resolve_if :=
+  match goal with
+  | |- context [if ?b then _ else _] =>
+      first [ replace b with false by lia | replace b with true by lia ]
+  end.
+
+Ltac unfold_classes :=
+  unfold S.whitespace, S.newline, S.quote, S.digit, S.ident_start, S.letter, S.non_ascii,
+         is_space, is_digit, is_lower, is_upper in *.
+
+Definition plain (t : S.stoken) : bool :=
+  match t with
+  | S.SComment _ _ | S.SLParen | S.SLBracket | S.SLBrace | S.SFunction _
+  | S.SRParen | S.SRBracket | S.SRBrace => false
+  | _ => true
+  end.
+
+Lemma lex_rel_plain skip endc p t rS lx : plain t = true -> tok_out t rS lx -> lex_rel skip endc p t rS lx.
+Proof. destruct t; simpl; intros Hp Ht; try discriminate; exact Ht. Qed.
+
+Lemma consume_numeric_plain g rest : plain (fst (S.consume_numeric g rest)) = true.
+Proof.
+  unfold S.consume_numeric. destruct (S.consume_number rest) as [[repr i] r].
+  destruct (S.starts_ident r).
+  - destruct (S.ident_sequence g r); reflexivity.
+  - destruct r as [|c r']; [reflexivity|]. destruct (c =? 37); reflexivity.
+Qed.
+
+Lemma has_prefix_cdc c r : has_prefix s_cdc (c :: r) =
+  (c =? 45) && match r with a :: b :: _ => (a =? 45) && (b =? 62) | _ => false end.
+Proof.
+  unfold s_cdc. change (has_prefix [45; 45; 62] (c :: r)) with ((45 =? c) && has_prefix [45; 62] r).
+  rewrite (N.eqb_sym 45 c). f_equal. destruct r as [|a r1]; [reflexivity|].
+  change (has_prefix [45; 62] (a :: r1)) with ((45 =? a) && has_prefix [62] r1).
+  rewrite has_prefix_1. rewrite (N.eqb_sym 45 a). destruct r1 as [|b r2]; [apply andb_false_r|].
+  rewrite (N.eqb_sym 62 b). reflexivity.
+Qed.
+
+Lemma has_prefix_cdo c r : has_prefix s_cdo (c :: r) =
+  (c =? 60) && match r with a :: b :: d :: _ => (a =? 33) && (b =? 45) && (d =? 45) | _ => false end.
+Proof.
+  unfold s_cdo. change (has_prefix [60; 33; 45; 45] (c :: r)) with ((60 =? c) && has_prefix [33; 45; 45] r).
+  rewrite (N.eqb_sym 60 c). f_equal. destruct r as [|a r1]; [reflexivity|].
+  change (has_prefix [33; 45; 45] (a :: r1)) with ((33 =? a) && has_prefix [45; 45] r1).
+  rewrite (N.eqb_sym 33 a). destruct r1 as [|b r2]; [apply andb_false_r|].
+  change (has_prefix [45; 45] (b :: r2)) with ((45 =? b) && has_prefix [45] r2).
+  rewrite has_prefix_1. rewrite (N.eqb_sym 45 b). destruct r2 as [|d r3]; [rewrite !andb_false_r; reflexivity|].
+  rewrite (N.eqb_sym 45 d). rewrite andb_assoc. reflexivity.
+Qed.
+
+Lemma has_prefix_2 x y c r : has_prefix [x; y] (c :: r) = (c =? x) && match r with d :: _ => d =? y | [] => false end.
+Proof.
+  change (has_prefix [x; y] (c :: r)) with ((x =? c) && has_prefix [y] r). rewrite has_prefix_1.
+  rewrite (N.eqb_sym x c). destruct r as [|d r']; [reflexivity|]. rewrite (N.eqb_sym y d). reflexivity.
+Qed.
+
+Lemma starts_ident_not_number r : S.starts_ident (45 :: r) = true -> S.starts_number (45 :: r) = false.
+Proof.
+  unfold S.starts_ident, S.starts_number. change (N.eqb 45 45) with true. change (N.eqb 45 43) with false. cbv match.
+  simpl orb. cbv match.
+  destruct r as [|d r']; [reflexivity|].
+  unfold S.valid_escape, S.ident_start, S.letter, S.non_ascii, S.digit, S.newline.
+  destruct r' as [|e r'']; intros H; lia.
+Qed.
+
+Ltac resolve_if' :=
+  match goal with
+  | |- context [if ?b then _ else _] =>
+      first [ replace b with false by lia | replace b with true by lia ]
+  end; cbv match.
+
+Ltac spec_chain :=
+  unfold S.whitespace, S.newline, S.quote, S.digit, S.ident_start, S.letter, S.non_ascii;
+  repeat resolve_if'; cbn [fst snd].
+
+Lemma lex1_spec skip f g endc p c r lx :
+  scalars (c :: r) -> c <> 0 -> (length (c :: r) < f)%nat -> (length (c :: r) <= g)%nat ->
+  (endc = 0 \/ endc = 41 \/ endc = 93 \/ endc = 125) ->
+  lex1 true skip f endc p (c :: r) = Ok lx ->
+  lex_rel skip endc p (fst (S.consume_token g (c :: r))) (snd (S.consume_token g (c :: r))) lx.
+Proof.
+  intros Hs Hc0 Hf Hg Hendc H.
+  assert (Hsr : scalars r) by (inversion Hs; assumption).
+  assert (Hsc : scalar c) by (inversion Hs; assumption).
+  unfold lex1 in H. unfold S.consume_token.
+  (* 1. whitespace *)
+  destruct (is_space c) eqn:Esp.
+  { rewrite span_spec in H.
+    assert (Hw : S.while_ is_space r = S.while_ S.whitespace r).
+    { clear. induction r as [|d r IH]; [reflexivity|]. simpl. rewrite IH, is_space_spec. reflexivity. }
+    rewrite Hw in H. unfold S.skip_ws.
+    destruct (S.while_ S.whitespace r) as [ws r'] eqn:Ew. inversion H; subst.
+    unfold is_space in Esp.
+    spec_chain. eexists; split; reflexivity. }
+  unfold is_space in Esp.
+  (* 2. unicode-range *)
+  destruct (if (c =? 85) || (c =? 117) then try_consume_unicode_range p (c :: r) else None) as [[t r']|] eqn:Eu.
+  { destruct ((c =? 85) || (c =? 117)) eqn:EU; [|discriminate].
+    unfold try_consume_unicode_range in Eu. destruct r as [|c1 [|c2 r2]]; try discriminate.
+    destruct ((c1 =? 43) && (is_hex c2 || (c2 =? 63))) eqn:Ec; [|discriminate].
+    destruct (consume_unicode_range_spec c2 r2) as (s & e & r3 & E1 & E2); [lia|].
+    rewrite E1 in Eu. inversion Eu; subst. inversion H; subst.
+    rewrite is_hex_spec in Ec.
+    spec_chain. rewrite E2. cbn [fst snd]. eexists; split; reflexivity. }
+  (* 3. CDC *)
+  rewrite has_prefix_cdc in H.
+  destruct ((c =? 45) && _) eqn:Ecdc.
+  { inversion H; subst. destruct r as [|a [|b r']]; try (simpl in Ecdc; lia).
+    assert (Esn : S.starts_number (c :: a :: b :: r') = false).
+    { unfold S.starts_number, S.digit. replace ((c =? 43) || (c =? 45)) with true by lia. cbv match. lia. }
+    spec_chain.
+    change (skipn 3 (c :: a :: b :: r')) with r'. eexists; split; reflexivity. }
+  (* 4. identifiers *)
+  rewrite is_ident_start_spec in H. cbn [bind] in H.
+  destruct (S.starts_ident (c :: r)) eqn:Esi.
+  { pose proof (lex_ident_like_spec skip endc f g p (c :: r) lx Hs Hf Hg H) as X.
+    destruct (c =? 45) eqn:E45.
+    - apply N.eqb_eq in E45; subst c.
+      pose proof (starts_ident_not_number r Esi) as Esn.
+      destruct r as [|a [|b r']]; simpl in Ecdc; spec_chain; exact X.
+    - destruct (c =? 92) eqn:E92.
+      + apply N.eqb_eq in E92; subst c.
+        assert (Eve : S.valid_escape (92 :: r) = true) by exact Esi.
+        spec_chain. exact X.
+      + assert (Eis : S.ident_start c = true).
+        { unfold S.starts_ident in Esi. rewrite E45, E92 in Esi. exact Esi. }
+        unfold S.ident_start, S.letter, S.non_ascii in Eis.
+        destruct ((c =? 85) || (c =? 117)) eqn:EU.
+        * unfold try_consume_unicode_range in Eu.
+          destruct r as [|a [|d r']].
+          -- spec_chain. exact X.
+          -- spec_chain. exact X.
+          -- destruct ((a =? 43) && (is_hex d || (d =? 63))) eqn:Ec.
+             ++ destruct (consume_unicode_range (d :: r')) as [[[s e]|] r3]; discriminate.
+             ++ rewrite is_hex_spec in Ec. spec_chain. exact X.
+        * spec_chain. exact X. }
+  (* 5. numbers *)
+  pose proof (try_consume_number_spec f g p (c :: r) Hs Hf Hg) as Xn.
+  destruct (try_consume_number true f p (c :: r)) as [[[t r']|]| |]; try contradiction.
+  { cbn [bind] in H. inversion H; subst. destruct Xn as [Esn Xn].
+    apply (lex_rel_plain skip endc p) in Xn; [|apply consume_numeric_plain].
+    assert (Hcl : c = 43 \/ c = 45 \/ c = 46 \/ S.digit c = true).
+    { unfold S.starts_number in Esn. destruct ((c =? 43) || (c =? 45)) eqn:E1; [lia|].
+      destruct (c =? 46) eqn:E2; [lia|]. auto. }
+    destruct Hcl as [->|[->|[->|Hd]]].
+    - spec_chain. exact Xn.
+    - spec_chain. exact Xn.
+    - spec_chain. exact Xn.
+    - unfold S.digit in Hd. spec_chain. exact Xn. }
+  cbn [bind] in H. rename Xn into Esn.
+  unfold lex1_punct in H.
+  assert (Hgr : (length r <= g)%nat) by (simpl in Hg; lia).
+  assert (Hfr : (length r < f)%nat) by (simpl in Hf; lia).
+  (* @ *)
+  destruct (c =? 64) eqn:E64.
+  { apply N.eqb_eq in E64; subst c. rewrite is_ident_start_guard_spec in H. cbn [bind] in H.
+    destruct (S.starts_ident r) eqn:Esr.
+    - destruct (consume_ident f r) as [[v r']| |] eqn:Ei; try discriminate. cbn [bind] in H. inversion H; subst.
+      spec_chain. rewrite (consume_ident_spec f g r v r' Hsr Hgr Ei). cbn [fst snd].
+      eexists; split; reflexivity.
+    - inversion H; subst. spec_chain. eexists; split; reflexivity. }
+  (* # *)
+  destruct (c =? 35) eqn:E35.
+  { apply N.eqb_eq in E35; subst c. unfold try_consume_hash in H. destruct r as [|d r'].
+    - cbn [bind] in H. inversion H; subst. spec_chain. unfold S.valid_escape. cbv match. spec_chain.
+      eexists; split; reflexivity.
+    - assert (Hc : is_digit d || is_lower d || is_upper d || (d =? 45) || (d =? 95) || (127 <? d)
+                   || valid_escape_at (d :: r') = S.ident_char d || S.valid_escape (d :: r')).
+      { rewrite valid_escape_at_spec.
+        unfold S.ident_char, S.ident_start, S.letter, S.non_ascii, S.digit, is_digit, is_lower, is_upper. lia. }
+      rewrite Hc in H. destruct (S.ident_char d || S.valid_escape (d :: r')) eqn:Eh.
+      + rewrite is_ident_start_spec in H. cbn [bind] in H.
+        destruct (consume_ident f (d :: r')) as [[v r2]| |] eqn:Ei; try discriminate.
+        cbn [bind] in H. inversion H; subst.
+        spec_chain. rewrite (consume_ident_spec f g (d :: r') v r2 Hsr Hgr Ei). cbn [fst snd].
+        eexists; split; reflexivity.
+      + cbn [bind] in H. inversion H; subst. spec_chain. eexists; split; reflexivity. }
+  destruct (c =? 123) eqn:E123.
+  { apply N.eqb_eq in E123; subst c. inversion H; subst. spec_chain. reflexivity. }
+  destruct (c =? 91) eqn:E91.
+  { apply N.eqb_eq in E91; subst c. inversion H; subst. spec_chain. reflexivity. }
+  destruct (c =? 40) eqn:E40.
+  { apply N.eqb_eq in E40; subst c. inversion H; subst. spec_chain. reflexivity. }
+  destruct (c =? 0) eqn:E0; [lia|].
+  destruct (c =? endc) eqn:Eend.
+  { inversion H; subst. apply N.eqb_eq in Eend. subst endc.
+    destruct Hendc as [->|[->|[->| ->]]]; [lia| | |]; spec_chain; reflexivity. }
+  destruct ((c =? 125) || (c =? 93) || (c =? 41)) eqn:Ecl.
+  { inversion H; subst.
+    assert (Hcl : c = 125 \/ c = 93 \/ c = 41) by lia.
+    destruct Hcl as [->|[->| ->]]; spec_chain; unfold lex_rel.
+    - replace (125 =? endc) with false by lia. reflexivity.
+    - replace (93 =? endc) with false by lia. reflexivity.
+    - replace (41 =? endc) with false by lia. reflexivity. }
+  (* strings *)
+  destruct ((c =? 39) || (c =? 34)) eqn:Eq.
+  { unfold consume_quoted_string, index in H. cbn [nth_error Z.to_nat Z.ltb Z.compare bind tl] in H.
+    destruct (quoted_loop f c r) as [[[[v a] e] r']| |] eqn:Eql; try discriminate.
+    cbn [bind] in H. inversion H; subst.
+    destruct (quoted_loop_spec f g c r v a e r' Hsr Hgr Eql) as (v' & o & Esb & Hcase).
+    assert (Hcs : fst (S.consume_string g c r) = (if o =? 2 then S.SBadString else S.SString v' (o =? 1)) /\
+                  snd (S.consume_string g c r) = r').
+    { unfold S.consume_string. rewrite Esb. destruct (o =? 2); split; reflexivity. }
+    destruct Hcs as [Hc1 Hc2].
+    assert (Hgoal : lex_rel skip endc p (fst (S.consume_string g c r)) (snd (S.consume_string g c r))
+       (LTok ((if a then [TString p v (negb (e =? 0))] else []) ++ (if negb (e =? 0) then [TParseError p e] else [])) r')).
+    { rewrite Hc1, Hc2.
+      destruct Hcase as [(-> & -> & [[-> ->]|[-> ->]])|(-> & -> & ->)]; eexists; split; reflexivity. }
+    assert (Hq : c = 39 \/ c = 34) by lia.
+    destruct Hq as [->| ->]; spec_chain; exact Hgoal. }
+  (* comments *)
+  rewrite has_prefix_2 in H.
+  destruct ((c =? 47) && match r with d :: _ => d =? 42 | [] => false end) eqn:Ecm.
+  { assert (c = 47) by lia. subst c.
+    pose proof (find_comment_end_spec (tl r)) as Xc.
+    destruct (find_comment_end (tl r)) as [[txt r']|] eqn:Efc; inversion H; subst;
+      spec_chain; rewrite Xc; cbn [fst snd]; simpl; auto. }
+  (* delimiters *)
+  unfold consume_delim, index in H. cbn [nth_error Z.to_nat Z.ltb Z.compare bind tl] in H.
+  rewrite has_prefix_cdo, has_prefix_2, has_prefix_1 in H.
+  destruct ((c =? 60) && _) eqn:Ecdo.
+  { inversion H; subst. assert (c = 60) by lia. subst c.
+    destruct r as [|a [|b [|d r']]]; try (simpl in Ecdo; lia).
+    spec_chain. change (skipn 4 (60 :: a :: b :: d :: r')) with r'. eexists; split; reflexivity. }
+  destruct ((c =? 124) && _) eqn:Ecol.
+  { inversion H; subst. assert (c = 124) by lia. subst c.
+    destruct r as [|a r']; [simpl in Ecol; lia|].
+    spec_chain. change (skipn 2 (124 :: a :: r')) with r'. eexists; split; reflexivity. }
+  destruct ((c =? 126) || (c =? 124) || (c =? 94) || (c =? 36) || (c =? 42)) eqn:Eop.
+  { destruct r as [|a r'].
+    - inversion H; subst.
+      assert (Hop : c = 126 \/ c = 124 \/ c = 94 \/ c = 36 \/ c = 42) by lia.
+      destruct Hop as [->|[->|[->|[->| ->]]]]; spec_chain; eexists; split; reflexivity.
+    - rewrite (N.eqb_sym 61 a) in H. destruct (a =? 61) eqn:Ea; inversion H; subst;
+      assert (Hop : c = 126 \/ c = 124 \/ c = 94 \/ c = 36 \/ c = 42) by lia;
+      destruct Hop as [->|[->|[->|[->| ->]]]]; spec_chain; eexists; split; reflexivity. }
+  inversion H; subst. rewrite (write_rune_scalar _ Hsc).
+  destruct (c =? 43) eqn:E43; [assert (c = 43) by lia; subst c; spec_chain; eexists; split; reflexivity|].
+  destruct (c =? 44) eqn:E44; [assert (c = 44) by lia; subst c; spec_chain; eexists; split; reflexivity|].
+  destruct (c =? 45) eqn:E45.
+  { assert (c = 45) by lia; subst c.
+    destruct r as [|a [|b r']]; simpl in Ecdc; spec_chain; eexists; split; reflexivity. }
+  destruct (c =? 46) eqn:E46; [assert (c = 46) by lia; subst c; spec_chain; eexists; split; reflexivity|].
+  destruct (c =? 58) eqn:E58; [assert (c = 58) by lia; subst c; spec_chain; eexists; split; reflexivity|].
+  destruct (c =? 59) eqn:E59; [assert (c = 59) by lia; subst c; spec_chain; eexists; split; reflexivity|].
+  destruct (c =? 60) eqn:E60.
+  { assert (c = 60) by lia; subst c.
+    destruct r as [|a [|b [|d r']]]; simpl in Ecdo; spec_chain; eexists; split; reflexivity. }
+  destruct (c =? 92) eqn:E92.
+  { assert (c = 92) by lia; subst c.
+    assert (Eve : S.valid_escape (92 :: r) = false) by exact Esi.
+    spec_chain; eexists; split; reflexivity. }
+  assert (Eis : S.ident_start c = false).
+  { unfold S.starts_ident in Esi. rewrite E45, E92 in Esi. exact Esi. }
+  assert (Edg : S.digit c = false).
+  { unfold S.starts_number in Esn. replace ((c =? 43) || (c =? 45)) with false in Esn by lia.
+    rewrite E46 in Esn. exact Esn. }
+  unfold S.ident_start, S.letter, S.non_ascii in Eis. unfold S.digit in Edg.
+  spec_chain. eexists; split; reflexivity.
+Qed.
